@@ -33,6 +33,9 @@ ASSUMPTIONS = ["structural equality of canonical forms implies faithfulness; str
                "for outside forms that have no PDDL meaning (undeclared names, wrong arity) only a structurally "
                "identical read-back counts as faithful"]
 
+MEANINGLESS = {"wrong-arity-atom-less", "wrong-arity-atom-extra", "wrong-arity-fterm-less", "wrong-arity-fterm-extra",
+               "undeclared-pred-pre", "undeclared-pred-neg-pre", "undeclared-pred-eff", "undeclared-pred-del",
+               "undeclared-function", "undeclared-term"}
 F_K2_LIFTED = "K2-lifted-repeat"      # lifted atom / function term with a repeated argument loses arity
 F_K7 = "K7-nary-truncated"            # (+ a b c) keeps two operands; extra function arguments dropped by zip
 F_K5 = "K5-simplifier-at-parse"       # nested numeric conditions are pushed through the simplifier when hashed
@@ -337,6 +340,16 @@ def check_case(case):
                 res.skips.append("equivalence-undecided")
             else:
                 unfaithful.append((a, part, detail))
+    if not unfaithful and tag in MEANINGLESS and world is not None:
+        # ill-formed PDDL (wrong arity, undeclared names) has no meaning to be faithful to: keeping the text as
+        # written is fine at parse time, but grounding / evaluating the action must raise
+        a0 = dom["actions"][0]
+        okf, silent = lib_call(first_use_outcomes, domain, dom, objects, world, a0, probes, "signature")
+        if okf and silent:
+            res.bad(f"C01/outside/{tag}/evaluated-silently", {"action": a0, "silent": silent[:2], "text": sexpr.flat(pddl.domain_tree(dom))})
+        else:
+            res.classes.append("outside-raised-at-first-use")
+        return res
     if not unfaithful:
         if tag:
             res.classes.append("outside-faithful")
@@ -461,7 +474,9 @@ def inject(ch, dom, tag):
             if len(atom) < 2: return None
             x = atom[:-1]
         else:
-            extra = scope[0][0] if scope else (dom["constants"][0][0] if dom["constants"] else None)
+            # prefer a term the atom does not use yet (a repeated one is rejected for another reason)
+            cands = [v for v, _ in scope if v not in atom] + [c for c, _ in dom["constants"] if c not in atom]
+            extra = ch.choice(cands) if cands else (scope[0][0] if scope else None)
             if extra is None: return None
             x = atom + [extra]
         if ch.flag(0.5):
